@@ -6,6 +6,14 @@ graphs as files, runs gather_dependencies and a compilation whose CompilerOpts r
 read_new_file call, `modeld deps` evaluates the model on the same abstract graph.
 Oracle (implementation alone): files read ⊆ listed ∪ pseudo-files; every listed name is the first
 match in search-path order and is a file actually read.
+
+State: the model mirrors /repo after 91ba43e (embed-file targets are listed) and 95cfe0a (include
+vectors of nested (mod …) programs are collected, liveness filter off).  Embed targets, includes
+inside nested mods (in a call argument, a let binding, a lambda body; in helpers the program uses and
+in dead ones) are POSITIVE cases now: F-C18-embed / F-C18-nested-mod are "fixed" entries, their
+signatures are violations again.  What the listing still misses — a (mod …) that an old-style
+defmacro produces during code generation — is exercised on the implementation alone (form `g`,
+finding F-C18-macro-generated-mod).
 """
 import itertools
 
@@ -22,6 +30,7 @@ DATA = [(True, True, b"ff0102"), (True, True, b"80"), (False, True, b"(1 2 3)\n"
 
 # ---- abstract cases --------------------------------------------------------------------------
 # a form is ("i", name) | ("b"|"h"|"s", name) | ("m", [forms]) | ("o",)
+#          | ("g", [forms])   implementation side only: a defmacro expanding to a (mod …) with these forms
 # a case: dialect, order (list of dir numbers), files {(dir, name): ("F", forms) | ("D", idx)}
 
 def enc_forms(fs):
@@ -29,8 +38,8 @@ def enc_forms(fs):
     for f in fs:
         if f[0] == "o":
             out.append("o")
-        elif f[0] == "m":
-            out.append("m" + enc_forms(f[1]) + "e")
+        elif f[0] in "mg":
+            out.append(f[0] + enc_forms(f[1]) + "e")
         else:
             out.append(f[0] + f[1] + ".")
     return "".join(out)
@@ -47,6 +56,39 @@ def enc_case(dialect, order, files):
     return f"{dialect} {''.join(str(x) for x in order) or '-'} " + ";".join(parts)
 
 
+def dec_forms(t, pos):
+    out = []
+    while pos < len(t):
+        c = t[pos]
+        if c == "o":
+            out.append(("o",)); pos += 1
+        elif c in "ibhs":
+            j = t.index(".", pos)
+            out.append((c, t[pos + 1:j])); pos = j + 1
+        elif c in "mg":
+            inner, pos = dec_forms(t, pos + 1)
+            out.append((c, inner)); pos += 1          # skip the closing 'e'
+        else:
+            break
+    return out, pos
+
+
+def dec_case(line):
+    """inverse of enc_case (for --replay): -> (dialect, order, files)"""
+    dialect, order, rest = line.split(" ", 2)
+    files = {}
+    for part in rest.split(";"):
+        lhs, rhs = part.split("=", 1)
+        key = (int(lhs[0]), lhs[1:])
+        if rhs[0] == "F":
+            files[key] = ("F", dec_forms(rhs, 1)[0])
+        else:
+            b = bytes.fromhex(rhs[3:])
+            idx = [k for k, d in enumerate(DATA) if d[2] == b]
+            files[key] = ("D", idx[0] if idx else 0)
+    return dialect, [int(c) for c in order if c.isdigit()], files
+
+
 def first_match(order, files, name, kind):
     for d in order:
         c = files.get((d, name))
@@ -55,10 +97,10 @@ def first_match(order, files, name, kind):
     return None
 
 
-def reach(order, files, allow_nested):
+def reach(order, files, allow_nested, allow_gen=False):
     """python's own traversal of the abstract graph (independent of the Lean model):
     -> (include files, data files) that can be reached from the main program, following includes of
-    included files, and nested-mod bodies only when `allow_nested`."""
+    included files, nested-mod bodies only when `allow_nested`, macro-generated mods only when `allow_gen`."""
     incs, dats = set(), set()
     todo = [files[(0, "main")][1]]
     while todo:
@@ -76,6 +118,8 @@ def reach(order, files, allow_nested):
                 if d is not None:
                     dats.add((d, f[1]))
             elif f[0] == "m" and allow_nested:
+                todo.append(f[1])
+            elif f[0] == "g" and allow_gen:
                 todo.append(f[1])
     return incs, dats
 
@@ -182,6 +226,13 @@ def fixed_cases():
             (dia, [0], {(0, "main"): F(i("a")), (0, "a"): F(("m", [i("b")])), (0, "b"): F(o)}),
             (dia, [0, 1], {(0, "main"): F(("m", [i("a")])), (1, "a"): F(("m", [i("b")])), (0, "b"): F(o), (1, "b"): F(o)}),
         ]
+        # a nested mod after 0..5 other helpers: the harness puts the (mod …) into a call argument, a let
+        # binding or a lambda body, in a helper that the main expression uses or does not use, by position
+        for lead in range(6):
+            out.append((dia, [0], {(0, "main"): F(*([o] * lead), ("m", [i("a"), o])), (0, "a"): F(o)}))
+            out.append((dia, [0], {(0, "main"): F(*([o] * lead), ("m", [("b", "x"), ("m", [i("a")])])), (0, "a"): F(o), (0, "x"): ("D", 0)}))
+        out.append((dia, [1, 0], {(0, "main"): F(("m", [("h", "x"), i("a")]), ("m", [("s", "x")])), (0, "a"): F(o), (1, "a"): F(o, o),
+                                  (0, "x"): ("D", 0), (1, "x"): ("D", 1)}))
         for k in "bhs":
             for di in range(len(DATA)):
                 out.append((dia, [0], {(0, "main"): F((k, "x"), o), (0, "x"): ("D", di)}))
@@ -189,6 +240,29 @@ def fixed_cases():
             out.append((dia, [0], {(0, "main"): F((k, "q"))}))
             out.append((dia, [0], {(0, "main"): F(i("a")), (0, "a"): F((k, "x")), (0, "x"): ("D", 0)}))
             out.append((dia, [0], {(0, "main"): F(("m", [(k, "x")])), (0, "x"): ("D", 0)}))
+    return out
+
+
+def gen_cases(rng, n):
+    """IMPLEMENTATION-ONLY cases (the model's form language has no `g`): a (mod …) with includes / embeds
+    that exists only after an old-style defmacro was expanded, i.e. during code generation."""
+    F = lambda *fs: ("F", list(fs))
+    i = lambda nm: ("i", nm)
+    o = ("o",)
+    out = []
+    for dia in DIALECTS:
+        out += [
+            (dia, [0], {(0, "main"): F(("g", [i("a")]), o), (0, "a"): F(o)}),
+            (dia, [0], {(0, "main"): F(i("a"), ("g", [i("b"), o])), (0, "a"): F(o), (0, "b"): F(o)}),
+            (dia, [0], {(0, "main"): F(("g", [("b", "x")])), (0, "x"): ("D", 0)}),
+            (dia, [1, 0], {(0, "main"): F(("g", [i("a")]), ("m", [i("b")])), (0, "a"): F(o), (1, "a"): F(o, o), (0, "b"): F(o)}),
+            (dia, [0], {(0, "main"): F(i("a"), ("g", [i("a")])), (0, "a"): F(o)}),     # listed anyway (plain include too)
+        ]
+    for _ in range(n):
+        dia = rng.choice(list(DIALECTS))
+        inner = [i(rng.choice("ab")) if rng.random() < 0.7 else (rng.choice("bhs"), "x") for _ in range(rng.randrange(1, 3))]
+        main = [o] * rng.randrange(0, 3) + [("g", inner)] + ([i("a")] if rng.random() < 0.3 else [])
+        out.append((dia, [0], {(0, "main"): F(*main), (0, "a"): F(o), (0, "b"): F(o), (0, "x"): ("D", rng.randrange(2))}))
     return out
 
 
@@ -228,9 +302,11 @@ def oracle(chk, case, line, out):
             chk.fail("oracle", "deps:listing-fails-on-compilable-program", cj, out[:300])
         return
     # python's own view of the graph, to give a precise signature to an unlisted read
-    outer_inc, _ = reach(order, files, False)
+    outer_inc, outer_dat = reach(order, files, False)
     any_inc, seen_dat = reach(order, files, True)
+    gen_inc, gen_dat = reach(order, files, True, True)
     nested_only = any_inc - outer_inc
+    gen_only = (gen_inc - any_inc) | (gen_dat - seen_dat)
     listed = set(p["deps"])
     for r in p["reads"]:
         if r.startswith("*"):
@@ -243,7 +319,10 @@ def oracle(chk, case, line, out):
         d, fname = r.split("/", 1)
         dnum = int(d[1:])
         base, ext = fname.rsplit(".", 1)
-        if ext == "dat" and (dnum, base) in seen_dat:
+        if (dnum, base) in gen_only:
+            chk.fail("oracle", "deps:macro-generated-mod-read-not-listed", cj,
+                     f"{r} is read (by a (mod …) that a defmacro expansion produced) but not listed; listing = {p['deps']}")
+        elif ext == "dat" and (dnum, base) in seen_dat:
             chk.fail("oracle", "deps:embed-not-listed", cj, f"{r} is read (embed-file) but not listed; listing = {p['deps']}")
         elif ext == "clib" and (dnum, base) in nested_only:
             chk.fail("oracle", "deps:nested-mod-include-not-listed", cj,
@@ -308,8 +387,10 @@ def run(chk):
     quick = chk.tier == "quick"
     lib.std_obligations(chk)
     chk.cov["rule"] = ("generated include graphs of depth 0..4 over 1..3 search directories (plain and nested includes, "
-                       "embed-file bin/hex/sexp with valid and invalid data, same name in several directories, nested mod "
-                       "with own includes and sigils, missing files, search-path permutations and subsets) x dialect "
+                       "embed-file bin/hex/sexp with valid and invalid data (also inside nested mods and included files), same name "
+                       "in several directories, nested mod with own includes and sigils — placed by the harness in a call argument, "
+                       "a let binding or a lambda body of a helper that the main expression uses or not —, missing files, "
+                       "search-path permutations and subsets) x dialect "
                        "{standard-cl-21, standard-cl-22, strict-cl-21, standard-cl-23}; plus hand-written boundary cases and "
                        "include cycles (each in its own process). distinct = distinct case lines; non-trivial = at least one include/embed")
     cases = fixed_cases()
@@ -336,9 +417,20 @@ def run(chk):
     cases = [c for c, _ in keep]
     lines = [l for _, l in keep]
     if chk.replay_cases and "line" in chk.replay_cases.get("case", {}):
-        lines = [chk.replay_cases["case"]["line"]]
+        # replay: the oracle on the implementation, and model = implementation unless the line uses the
+        # implementation-only form `g`
+        l = chk.replay_cases["case"]["line"]
+        c = dec_case(l)
+        o = lib.run_impl("deps", [l], jobs=1, timeout=600)[0]
+        chk.note_case(l, nontrivial=True)
+        oracle(chk, c, l, o)
+        impl_only = any(f[0] == "g" for fc in c[2].values() if fc[0] == "F" for f in fc[1])
+        cases, lines = ([], []) if impl_only else ([c], [l])
     def has(fs, kinds):
-        return any(f[0] in kinds or (f[0] == "m" and has(f[1], kinds)) for f in fs)
+        return any(f[0] in kinds or (f[0] in "mg" and has(f[1], kinds)) for f in fs)
+
+    def has_in_nested(fs, kinds, inside=False):
+        return any((inside and f[0] in kinds) or (f[0] == "m" and has_in_nested(f[1], kinds, True)) for f in fs)
 
     for l in lines:
         chk.count("dialect:" + l.split()[0])
@@ -348,6 +440,9 @@ def run(chk):
         chk.note_case(l, nontrivial=has(allforms, "ibhs"))
         chk.count("feature:nested-mod", int(has(allforms, "m")))
         chk.count("feature:embed", int(has(allforms, "bhs")))
+        chk.count("feature:include-inside-nested-mod", int(has_in_nested(allforms, "i")))
+        chk.count("feature:embed-inside-nested-mod", int(has_in_nested(allforms, "bhs")))
+        chk.count("feature:nested-mod-inside-nested-mod", int(has_in_nested(allforms, "m")))
         chk.count("feature:include-in-included-file", int(any(has(c[1], "i") for k, c in files.items() if c[0] == "F" and k[1] != "main")))
         chk.count("feature:same-name-in-several-dirs", int(len({k[1] for k in files}) < len(files)))
         chk.count("search-dirs:%d" % len(order))
@@ -356,13 +451,24 @@ def run(chk):
         f = o.split()
         return " ".join(f[:4])
 
-    mo, io = correspond_par(chk, lines, norm)
+    mo, io = correspond_par(chk, lines, norm) if lines else ([], [])
     if not chk.replay_cases:
         for c, l, o in zip(cases, lines, io):
             oracle(chk, c, l, o)
         i = min(len(lines) - 1, 200)
         chk.sample({"line": lines[i], "model": mo[i], "impl": io[i][:300],
                     "meaning": "<dialect> <search order> <dir><file>=F<forms>|D<flags><hex>;…  ->  listing (in order) and set of files read"})
+        # implementation only: a (mod …) produced by a defmacro expansion (not in the model's form language)
+        gcases = gen_cases(rng, 12 if quick else 200)
+        glines = [enc_case(*c) for c in gcases]
+        gout = lib.run_impl("deps", glines, jobs=lib.NCPU, timeout=600)
+        for c, l, o in zip(gcases, glines, gout):
+            chk.note_case(l, nontrivial=True)
+            chk.count("feature:macro-generated-mod (implementation only)")
+            oracle(chk, c, l, o)
+        chk.sample({"line": glines[0], "impl": gout[0][:300],
+                    "meaning": "g<forms>e = a defmacro whose expansion is (mod (Y) <forms> …), used by the main expression: "
+                               "the file is read during code generation, the listing (frontend only) does not name it"})
         # include cycles: the real code recurses until the stack overflows (C14's finding); the model runs out of fuel
         for mk in CYCLES:
             for dia in DIALECTS:
@@ -384,6 +490,11 @@ def run(chk):
         chk.sample({"line": enc_case(*CYCLES[0]("c23")), "model": "deps=fuel", "impl": "deps=err reads=err (includes itself)",
                     "meaning": "an include cycle: the unguarded traversal of the model does not terminate; the code rejects it"})
     chk.cov["modelled_not_verified"] = [
+        "a (mod …) that comes into being only when an old-style defmacro is expanded during code generation: the compiler reads "
+        "its includes / embed targets, gather_dependencies (frontend only) cannot see them — open finding F-C18-macro-generated-mod; "
+        "exercised on the implementation alone (form g), outside the model's form language and hence outside reads_subset_deps",
+        "where in a helper body the nested (mod …) sits (call argument / let binding / lambda body) and whether the helper is live: "
+        "one abstract form `nested` for all (the implementation side varies them)",
         "forms are abstracted to include / embed-file / helper-with-nested-mod / other; macro expansion that produces include forms "
         "(strict dialects expand defmac before looking for includes) is not modelled",
         "how often a file is read (the real compiler re-runs the frontend of a nested mod several times) — reads are compared as sets",
